@@ -70,9 +70,10 @@ class DenseBlockDiagonalOperator(AbstractLinearOperator):
         self.subscripts = subscripts
 
     def mv(self, x: PyTree[Array, '...']) -> PyTree[Array]:
-        if is_leaf(x):
-            return jnp.einsum(self.subscripts, self.blocks, x)
         leaves, treedef = jax.tree.flatten(x)
+        if is_leaf(x) and leaves:
+            # a single array; a pytree without leaves ({}, [], None) is mapped to itself below
+            return jnp.einsum(self.subscripts, self.blocks, x)
         if is_leaf(self.blocks):
             return jax.tree.unflatten(
                 treedef, [jnp.einsum(self.subscripts, self.blocks, leaf) for leaf in leaves]
